@@ -31,7 +31,7 @@ ASSUMPTIONS = [
     "only default format options are used for the load-back clause (Config.load cannot pass options)",
 ]
 REQUIRED = ["size-sweep:bson", "inject:to_basic", "inject:keyfile", "inject:encrypt", "inject:dumps", "natural:unencodable", "natural:unknown-format",
-            "natural:bad-keyfile", "natural:out-of-domain", "success-save", "sibling-save", "dest:home-relative"]
+            "natural:bad-keyfile", "natural:out-of-domain", "success-save", "sibling-save", "dest:home-relative", "save-again:removed", "save-again:replaced"]
 LEVEL_TEXT = (
     "Every step of serialisation of each generated configuration is enumerated and failed once (exhaustive over the "
     "injection points of that configuration), plus naturally failing values; the destination file is compared byte "
@@ -391,3 +391,26 @@ def run_case(case, R):
             R.fail("loads-back", fmt + ":raises", "loading the file just saved raised %r" % (exc,))
             return
         c02.compare(world, cfg, fresh, R, "loads-back")
+
+        # ---- the same configuration is saved again to the same path after the file was removed / replaced from outside ----
+        for disturbance in ("removed", "replaced"):
+            if disturbance == "removed":
+                os.unlink(dest)
+            else:
+                with open(dest, "wb") as fp:
+                    fp.write(b"somebody else's file")
+            with Injector(cc) as probe2:
+                try:
+                    cfg.save(dest_arg, fmt)
+                except Exception as exc:
+                    R.fail("save-raises", fmt + ":again-" + disturbance, "saving again raised %r" % (exc,))
+                    return
+            R.label("save-again:" + disturbance)
+            try:
+                with open(dest, "rb") as fp:
+                    written2 = fp.read()
+            except OSError:
+                written2 = None
+            R.check(written2 is not None and written2 == probe2.dumps_result, "exact", fmt + ":again-" + disturbance,
+                    lambda: "the file was %s from outside and the configuration saved again: the file holds %s" % (
+                        disturbance, "nothing (it does not exist)" if written2 is None else "%d bytes, serialisation produced %d" % (len(written2), len(probe2.dumps_result or b""))))
